@@ -139,28 +139,31 @@ Qed.
 
 (* (6) Closes of ONE channel by several goroutines (its owner, Conn.Close, ...): every interleaving of the steps of
    n + 1 calls of Channel.Close on the same logical channel (model: C13/Closers.v - first closed check under the read
-   lock, teardown packet with no lock held, exclusive lock, re-check, unregister, close and drain the queues, unlock).
-   In EVERY reachable state nobody has panicked and the id was deleted from the channel map at most once; some closer
-   can move until all have returned; once all have returned exactly one has performed the teardown, all n others
-   report ErrChannelClosed, the channel is unregistered and no lock is held.  (Statement shared with C13.) *)
-Theorem C12_concurrent_close : forall left n ls,
-  let s := Closers.cexec (Closers.cinit true left (S n)) ls in
-  (Closers.c_panic s = false /\ Closers.c_unregs s <= 1 /\
+   lock, atomic compare-and-swap of `closing`, teardown packet with no lock held, exclusive lock, re-check, unregister,
+   close and drain the queues, unlock).  In EVERY reachable state nobody has panicked, at most ONE teardown packet was
+   written (so header type and packet counter of the channel have one writer) and the id was deleted from the channel
+   map at most once; some closer can move until all have returned; once all have returned exactly one has performed
+   the teardown, all n others report ErrChannelClosed, exactly one teardown packet was written, the channel is
+   unregistered and no lock is held.  (Statement shared with C13.) *)
+Theorem C12_concurrent_close : forall recheck left n ls,
+  let s := Closers.cexec (Closers.cinit true recheck left (S n)) ls in
+  (Closers.c_panic s = false /\ Closers.c_unregs s <= 1 /\ Closers.c_teardowns s <= 1 /\
    (forall i c, nth_error (Closers.c_pcs s) i = Some (Model.CDone c) -> c = 2 \/ c = (if left then 1 else 0))) /\
   (Closers.all_returned s = false -> exists i s', Closers.cstep s i = Some s') /\
   (Closers.all_returned s = true ->
      ProofsClosers.cnt ProofsClosers.is_win (Closers.c_pcs s) = 1 /\ ProofsClosers.cnt ProofsClosers.lost (Closers.c_pcs s) = Z.of_nat n /\
-     Closers.c_unregs s = 1 /\ Closers.c_registered s = false /\ Closers.c_closed s = true /\
+     Closers.c_unregs s = 1 /\ Closers.c_teardowns s = 1 /\ Closers.c_registered s = false /\ Closers.c_closed s = true /\
      Closers.c_wheld s = false /\ Closers.c_pending s = 0) /\
-  (forall ls' s', ProofsClosers.crun_eff (Closers.cinit true left (S n)) ls' = Some s' -> Z.of_nat (length ls') <= 9 * Z.of_nat (S n)).
+  (forall ls' s', ProofsClosers.crun_eff (Closers.cinit true recheck left (S n)) ls' = Some s' -> Z.of_nat (length ls') <= 10 * Z.of_nat (S n)).
 Proof. exact ProofsClosers.concurrent_close. Qed.
 
-(* without the re-check under the exclusive lock two closers that both passed the first check delete the id twice and
-   the second one panics (close of a nil channel) *)
-Example C12_concurrent_close_unchecked_refuted :
-  let s := Closers.crun_window false false 2 in
-  Closers.c_panic s = true /\ Closers.c_unregs s = 2.
-Proof. vm_compute. split; reflexivity. Qed.
+(* without the compare-and-swap two closers that both passed the first check both write a teardown packet (two
+   unsynchronised writers of the channel's header type and packet counter); without the re-check under the exclusive
+   lock as well they delete the id twice and the second one panics (close of a nil channel) *)
+Example C12_concurrent_close_unguarded_refuted :
+  Closers.c_teardowns (Closers.crun_window false true false 2) = 2 /\
+  (let s := Closers.crun_window false false false 2 in Closers.c_panic s = true /\ Closers.c_unregs s = 2).
+Proof. vm_compute. repeat split; reflexivity. Qed.
 
 (* ---- non-vacuity *)
 
